@@ -250,7 +250,13 @@ def cache_excl(ctx: Ctx) -> RuleResult:
                   "only the last node of cache_deps_of is excluded: the earlier ones stay in the file and are not executed on restart",
                   norm_src(bad_stmt))
     elif not good:
-        raise Undecided("accumulation of the excluded ids not recognised")
+        touched = any(isinstance(b, (ast.Assign, ast.AugAssign, ast.Call)) and acc in names_in(b) for b in own_walk(lp) if b is not lp)
+        if not touched:
+            r.violate(f"{f.short}: the ids of the cache_deps_of nodes are never collected", f.loc(lp),
+                      "the set of excluded ids stays empty: nothing is excluded from the file, so restarting from it does not execute "
+                      "the nodes whose dependencies were cached", None)
+        else:
+            raise Undecided("accumulation of the excluded ids not recognised")
     # the filter uses the accumulator
     flt = [n for n in iter_own_nodes(f.node) if isinstance(n, ast.DictComp) and n.generators[0].ifs]
     okf = len(flt) == 1 and norm_src(flt[0].generators[0].ifs[0]).endswith(f"not in {acc}")
